@@ -38,7 +38,7 @@ def main() -> int:
     r = E.run_tlc("MC_ReadOnly", cfg, work=work, workers=16, timeout=900)
     orders = r.printed("ORDER")
     rnd = random.Random(E.seed() + 5)
-    decks = corpus.decks() if thorough else corpus.subset(14, E.seed())
+    decks = corpus.decks() if thorough else sorted(set(corpus.subset(10, E.seed()) + corpus.key_decks()))
     per_deck = 60 if thorough else 10
     jobs = []
     if replay:
